@@ -829,7 +829,7 @@ void mc_explore(Run &r, const std::string &job)
 	const char *req[] = {"nontrivial", "cases_with_zero_length_fragment", "form_inline_first_part", "form_pure_iovec_list", "search_hit_beyond_first_fragment",
 	                     "memtok_comment_started_in_earlier_fragment", "memtok_comment_ended_by_newline_in_later_fragment", "memtok_zero_length_fragment_inside_comment", "empty_fragment_base_unreadable", "empty_fragment_base_foreign_newline", "argv_space_at_fragment_end", "argv_quoted_input_fragmented", "argv_iterated_more_than_one_argument",
 	                     "array_message_more_than_one_argument", "read_crossing_fragment_boundary", "memcpy_source_and_target_fragmented", "memcpy_open_length_partial",
-	                     "append_multi_fragment", "append_fails_after_leading_fragments_went_in", "append_fails_after_buffer_was_relocated", "qget_two_part_message", "qget_range_crossing_wrap", "qget_offset_exactly_at_wrap_point", "qget_wrapped_one_piece_without_vec", "decode_queue_current_message_wrapped_one_piece_without_cont"};
+	                     "append_multi_fragment", "append_fails_after_leading_fragments_went_in", "qget_two_part_message", "qget_range_crossing_wrap", "qget_offset_exactly_at_wrap_point", "qget_wrapped_one_piece_without_vec", "decode_queue_current_message_wrapped_one_piece_without_cont"};
 	for (const char *q : req) r.require(q);
 	dfs(r, [&](Ctx &x) { body(r, job, x); });
 	r.count("nontrivial", P.nontrivial); r.count("cases_with_zero_length_fragment", P.with_empty);
